@@ -1,7 +1,7 @@
 (* C11 — pinned statements: each theorem of Props/C11.v must still have exactly this type. *)
 From Coq Require Import List String ZArith Bool.
 From NV Require Import Seal.Syntax Seal.Eval Seal.TableTypes Seal.TableCheck Seal.Guard Seal.Typing
-     Seal.LogRel Seal.Fundamental Seal.Erasure Seal.Tail Seal.Keys Seal.Variants.
+     Seal.LogRel Seal.Fundamental Seal.Erasure Seal.Export Seal.Tail Seal.Keys Seal.Variants.
 Import ListNotations.
 Open Scope string_scope.
 From NV Require Import Props.C11.
@@ -66,6 +66,17 @@ Check (C11_parametric_annotation_same_result2 :
     is_base (inst sg b) = true ->
     forall n r, eval cfg_real n p (App (App f arg1) arg2) = r -> r <> OutOfFuel ->
       exists m, eval cfg_real m p
+                  (App (App (Ann (TForall "a" KType (TForall "b" KType (sty_ty names2 (SFun a1 (SFun a2 b))))) f) arg1) arg2) = r).
+Check (C11_export_same :
+  forall d T t1 t2, data_ty T -> lift (OR d T) t1 t2 ->
+    forall n r, export n t2 = r -> r <> OutOfFuel -> exists m, export m t1 = r).
+Check (C11_parametric_annotation_same_export2 :
+  forall sg a1 a2 b f arg1 arg2,
+    scoped 2 (SFun a1 (SFun a2 b)) -> (forall i, is_svar (sg i) = false) ->
+    has_ty [] f (SFun a1 (SFun a2 b)) -> has_ty [] arg1 (inst sg a1) -> has_ty [] arg2 (inst sg a2) ->
+    data_ty (inst sg b) ->
+    forall n r, run_data cfg_real n (App (App f arg1) arg2) = r -> r <> OutOfFuel ->
+      exists m, run_data cfg_real m
                   (App (App (Ann (TForall "a" KType (TForall "b" KType (sty_ty names2 (SFun a1 (SFun a2 b))))) f) arg1) arg2) = r).
 Check (C11_tail_guarded :
   forall n r e fs k l tfs t o,
